@@ -51,11 +51,14 @@ fn scenario(k: &str, sc: &str, rng: &mut Rng) -> Option<(Q, Q, Q)> {
     "start-at-min" => { if !int || bits(k) == 128 { return None; } let s = 1 + rng.below(3) as i128; (q(min), q(s), q(min + s * (1 + rng.below(6) as i128))) }
     "frac-dyadic" => { if int { return None; } let a = Q::new(small(rng) * 4 + rng.below(4) as i128, 4); let s = Q::new(1 + rng.below(7) as i128, 4); let n = 1 + rng.below(8) as i128; let e = a.add(Q::new(s.n * n, s.d)); (a, s, if rng.chance(1, 2) { e } else { e.add(Q::new(1, 8)) }) }
     "frac-dyadic-desc" => { if int { return None; } let a = Q::new(small(rng) * 4 + rng.below(4) as i128, 4); let s = Q::new(-(1 + rng.below(7) as i128), 4); let n = 1 + rng.below(8) as i128; (a, s, a.add(Q::new(s.n * n, s.d))) }
+    // spans wider than the kind's positive maximum (the difference of the ends does not fit the kind), 8-bit kinds only
+    "span-over-max" => { if !int || bits(k) != 8 || !signed_like { return None; } let s = 1 + rng.below(3) as i128; (q(-70 - rng.below(30) as i128), q(s), q(70 + rng.below(30) as i128)) }
+    "full-span" => { if !int || bits(k) != 8 { return None; } (q(min), q(1 + rng.below(2) as i128), q(max)) }
     _ => return None,
   })
 }
 
-const SCENARIOS: [&str; 13] = ["asc-unit", "asc-step-ongrid", "asc-step-offgrid", "desc-negstep", "desc-negstep-offgrid", "single", "wrong-dir", "wrong-dir-neg", "zero-step", "end-at-max", "start-at-min", "frac-dyadic", "frac-dyadic-desc"];
+const SCENARIOS: [&str; 15] = ["span-over-max", "full-span", "asc-unit", "asc-step-ongrid", "asc-step-offgrid", "desc-negstep", "desc-negstep-offgrid", "single", "wrong-dir", "wrong-dir-neg", "zero-step", "end-at-max", "start-at-min", "frac-dyadic", "frac-dyadic-desc"];
 const FORMS: [&str; 4] = ["excl", "incl", "step-excl", "step-incl"];
 
 /// Some(terms) if the range can be built, None if it cannot (must be error or empty)
@@ -69,7 +72,7 @@ fn progression(a: Q, s: Q, b: Q, incl: bool) -> Option<Vec<Q>> {
   loop {
     let c = t.cmp(b);
     let inside = if !s.neg() { c == Less || (incl && c == Equal) } else { c == Greater || (incl && c == Equal) };
-    if !inside || v.len() > 200 { break; }
+    if !inside || v.len() > 300 { break; }
     v.push(t);
     t = t.add(s);
   }
@@ -78,7 +81,7 @@ fn progression(a: Q, s: Q, b: Q, incl: bool) -> Option<Vec<Q>> {
 
 impl Prop for C15 {
   fn id(&self) -> &'static str { "C15" }
-  fn rule(&self) -> String { "cells = 13 real numeric kinds x 4 range forms (a..b, a..=b, a..s..b, a..s..=b) x scenario {ascending unit, step on/off grid, descending with negative step on/off grid, single element, wrong direction (both signs), zero step, end at kind max, start at kind min, dyadic fractional steps up and down} with random magnitudes; operands API-bound; plus inexact decimal float steps and use as an index. The result is compared term by term with an exact rational progression. Non-trivial = the range evaluated or was judged against the must-fail/empty clause".into() }
+  fn rule(&self) -> String { "cells = 13 real numeric kinds x 4 range forms (a..b, a..=b, a..s..b, a..s..=b) x scenario {spans wider than the kind's maximum and the full span of the 8-bit kinds, ascending unit, step on/off grid, descending with negative step on/off grid, single element, wrong direction (both signs), zero step, end at kind max, start at kind min, dyadic fractional steps up and down} with random magnitudes; operands API-bound; plus inexact decimal float steps and use as an index. The result is compared term by term with an exact rational progression. Non-trivial = the range evaluated or was judged against the must-fail/empty clause".into() }
   fn assumptions(&self) -> Vec<String> { vec![
     "an unbuildable range (zero step, wrong direction, a = b exclusive) may be an error or an empty vector".into(),
     "for inexact decimal float steps the element count is not judged and elements are accepted within 1 ulp of a + i*s or of repeated addition".into(),
